@@ -386,7 +386,26 @@ def rejected_over_stored_worker(ctx, job):
     return res
 
 
+def short_worker(ctx, job):
+    """Addresses are pure digests also when the file system answers a write short (a legal POSIX answer): every write of
+    the writer is answered short once, the caller sends the rest; the returned address must be the digest of the bytes and
+    the file at it must hold them (the driver of C02's short-answer mode is reused, the address verdicts are kept)."""
+    import checks.c02 as c02
+    r = c02.short_worker(ctx, job)
+    keep = []
+    for v in r["violations"]:
+        if "wrong-digest" in v["sig"] or "content-file-not-matching-address" in v["sig"]:
+            v = dict(v)
+            v["sig"] = "address:" + v["sig"]
+            keep.append(v)
+    r["violations"] = keep
+    r["samples"] = [{"kind": "short-answers", "flavour": job["flavour"], "entry": job["entry"], "n": job["n"]}]
+    return r
+
+
 def worker(ctx, job):
+    if job["kind"] == "short":
+        return short_worker(ctx, job)
     if job["kind"] == "rejected-over-stored":
         return rejected_over_stored_worker(ctx, job)
     if job["kind"] == "rewrite-crash":
@@ -410,6 +429,9 @@ def main(tier, seed=0):
             if tier == "quick" and flavour == "tok" and entry != "oneshot":
                 continue
             jobs.append({"kind": "rewrite-crash", "flavour": flavour, "entry": entry})
+    for flavour, side in (("sync", "s"), ("astd", "a"), ("tok", "a")):
+        for entry in ("oneshot", "hash", "session", "session_declared"):
+            jobs.append({"kind": "short", "flavour": flavour, "side": side, "entry": entry, "n": 4097})
     # part A + C through run_check's machinery but without finishing: reuse its aggregation by calling it with a private prop name
     import vlib.run as R
     base = R.base_dir()
